@@ -71,6 +71,42 @@ type vnEpoch struct {
 	group  *key.Group
 	shares map[int]*key.Share // by share index
 	pub    *share.PubPoly
+	// ghost: points of the SAME polynomial at indices that belong to no member of this epoch (a share that was never
+	// handed out; a partial made with it verifies against the public polynomial but comes from no member)
+	ghost map[int]*share.PriShare
+}
+
+const vnGhostMax = 9
+
+// vnSplit separates the evaluations of vnPoly into member shares and ghost points.
+func vnSplit(all map[int]*share.PriShare, members []int) (map[int]*share.PriShare, map[int]*share.PriShare) {
+	mem, ghost := map[int]*share.PriShare{}, map[int]*share.PriShare{}
+	is := map[int]bool{}
+	for _, i := range members {
+		is[i] = true
+	}
+	for i, s := range all {
+		if is[i] {
+			mem[i] = s
+		} else {
+			ghost[i] = s
+		}
+	}
+	return mem, ghost
+}
+
+func vnWithGhosts(idxs []int) []int {
+	out := append([]int{}, idxs...)
+	have := map[int]bool{}
+	for _, i := range idxs {
+		have[i] = true
+	}
+	for i := 0; i <= vnGhostMax; i++ {
+		if !have[i] {
+			out = append(out, i)
+		}
+	}
+	return out
 }
 
 type vnNode struct {
@@ -523,14 +559,15 @@ func vnNewNet(t *testing.T, tr *vlib.Trace, cf vnConf, seed int64) *vnNet {
 		idxs[k] = k
 		nodes[k] = &key.Node{Index: uint32(k), Identity: pairs[i].Public}
 	}
-	pub, shares := vnPoly(sch, vn.secret, cf.T, idxs)
+	pub, allShares := vnPoly(sch, vn.secret, cf.T, vnWithGhosts(idxs))
+	shares, ghost0 := vnSplit(allShares, idxs)
 	_, commits := pub.Info()
 	group := key.LoadGroup(nodes, vn.genesis, &key.DistPublic{Coefficients: commits}, time.Duration(cf.Period)*time.Second,
 		0, sch, "vnbeacon")
 	group.CatchupPeriod = time.Duration(cf.Catchup) * time.Second
 	group.Threshold = cf.T
 	group.GenesisSeed = []byte("vn-genesis-seed-0123456789abcdef")
-	ep := &vnEpoch{group: group, shares: map[int]*key.Share{}, pub: pub}
+	ep := &vnEpoch{group: group, shares: map[int]*key.Share{}, pub: pub, ghost: ghost0}
 	for i, s := range shares {
 		ep.shares[i] = &key.Share{DistKeyShare: dkg.DistKeyShare{Share: s, Commits: commits}, Scheme: sch}
 	}
@@ -823,6 +860,12 @@ func (vn *vnNet) advPartial(to *vnNode, kind string, asIdx int, round uint64) *p
 	case "bitflip":
 		sig = sign(realShare(asIdx), round, prev)
 		sig[len(sig)-1] ^= 0x01
+	case "validNonMember": // a point of the live polynomial at an index that no member holds: verifies, but comes from no member
+		if g, ok := ep.ghost[asIdx]; ok {
+			sig = sign(g, round, prev)
+		} else {
+			sig = sign(&share.PriShare{I: asIdx, V: vn.sch.KeyGroup.Scalar().Pick(random.New())}, round, prev)
+		}
 	case "nonMember": // index outside the group, self-consistent signature
 		sig = sign(&share.PriShare{I: asIdx, V: vn.sch.KeyGroup.Scalar().Pick(random.New())}, round, prev)
 	case "replayOwn": // the victim's own partial sent back to it
@@ -1105,14 +1148,15 @@ func (vn *vnNet) reshare(st vnStep) {
 		nodes = append(nodes, &key.Node{Index: uint32(k), Identity: vn.nodes[ni].pair.Public})
 		idxs = append(idxs, k)
 	}
-	pub, shares := vnPoly(vn.sch, vn.secret, st.T, idxs)
+	pub, allShares := vnPoly(vn.sch, vn.secret, st.T, vnWithGhosts(idxs))
+	shares, ghost1 := vnSplit(allShares, idxs)
 	_, commits := pub.Info()
 	g := key.LoadGroup(nodes, vn.genesis, &key.DistPublic{Coefficients: commits}, old.group.Period, 0, vn.sch, old.group.ID)
 	g.CatchupPeriod = old.group.CatchupPeriod
 	g.Threshold = st.T
 	g.GenesisSeed = old.group.GenesisSeed
 	g.TransitionTime = common.TimeOfRound(old.group.Period, vn.genesis, st.Round)
-	ep := &vnEpoch{group: g, shares: map[int]*key.Share{}, pub: pub}
+	ep := &vnEpoch{group: g, shares: map[int]*key.Share{}, pub: pub, ghost: ghost1}
 	for i, s := range shares {
 		ep.shares[i] = &key.Share{DistKeyShare: dkg.DistKeyShare{Share: s, Commits: commits}, Scheme: vn.sch}
 	}
